@@ -1,6 +1,6 @@
 (* C06 -- property theorems only.  Proofs live in C06/Proofs*.v and C06/Tables.v. *)
 From Coq Require Import NArith List Bool.
-From DV Require Import Base.Outcome Base.Bytes C06.Gen C06.Model C06.Proofs C06.Proofs2 C06.Tables C06.B32 C06.Proofs3 C06.Proofs4 C06.Blob C06.Proofs5 C06.Svc C06.SvcProofs C06.SvcProofs2.
+From DV Require Import Base.Outcome Base.Bytes C06.Gen C06.Model C06.Proofs C06.Proofs2 C06.Tables C06.B32 C06.Proofs3 C06.Proofs4 C06.Blob C06.Proofs5 C06.Svc C06.SvcProofs C06.SvcProofs2 C06.Ip6Proofs.
 Import ListNotations.
 Local Open Scope N_scope.
 
@@ -138,6 +138,12 @@ Print Assumptions C06_ip6_group_text_reads_back.
 Theorem C06_ip6_zero_run_sound : forall l, length l = 8%nat -> run_sound l = true.
 Proof. exact zero_run_sound. Qed.
 Print Assumptions C06_ip6_zero_run_sound.
+
+(* IPv6 text: the branch of show_ip6 for every address that is not IPv4-mapped (the "::ffff:a.b.c.d"
+   form is the other branch) reads back *)
+Theorem C06_ip6_general_roundtrip : forall g, wf_ip6 g -> parse_ip6 (show_ip6_general g) = Some g.
+Proof. exact ip6_general_roundtrip. Qed.
+Print Assumptions C06_ip6_general_roundtrip.
 
 Theorem C06_type_schemas_consistent : forallb schema_ok type_schemas = true.
 Proof. exact type_schemas_ok. Qed.
